@@ -22,6 +22,7 @@ import Kust.Kustfile
 import Kust.Loc
 import Kust.Nameref
 import Kust.Repl
+import Kust.FmtSchema
 import Kust.Gen.Lists
 import Kust.Gen.FieldSpecs
 import Kust.Gen.Lists
@@ -540,6 +541,12 @@ def srcOfJ (j : Json) : Src := match jS j "t" with
 def replOfJ (j : Json) : Repl := ⟨srcOfJ (j.getObjValD "src"), (jArr (j.getObjValD "targets")).map targetOfJ⟩
 end ReplJ
 
+def runFmtSchema (a : Json) : Except String Json := do
+  let ns := predOfJson (a.getObjValD "ns")
+  let n : FmtSchema.Scalar := ⟨jS a "tag", jS a "value", (a.getObjValD "style").getNat?.toOption.getD 0⟩
+  let r := FmtSchema.format ns (jStrs (a.getObjValD "types")) (jS a "format") n
+  return Json.mkObj [("ok", Json.mkObj [("tag", r.tag), ("value", r.value), ("style", r.style)])]
+
 def runRepl (op : String) (a : Json) : Except String Json := do
   match op with
   | "apply" =>
@@ -552,6 +559,7 @@ def dispatch (comp : String) (args : Json) : Except String Json :=
   match comp.splitOn "." with
   | ["fns", op] => runFns op args
   | ["res", op] => runRes op args
+  | ["fmt", "nonstring"] => runFmtSchema args
   | ["fmt", op] => runFmt op args
   | ["walk", op] => runWalk op args
   | ["gen", op] => runGen op args
